@@ -32,7 +32,11 @@ def _config(cfg):
     method = cfg["method"]
     if method == "callable":
         method = _custom_sampler
-    return BootstrapConfig(sampling_method=method, stratified_sampling=cfg.get("strat"),
+    else:
+        method = "".join(list(method))  # a run-time string (as read from a config file), not a literal
+    strat = cfg.get("strat")
+    strat = "".join(list(strat)) if strat is not None else None
+    return BootstrapConfig(sampling_method=method, stratified_sampling=strat,
                            smoothing=cfg.get("smoothing", False), ratio=cfg.get("ratio"))
 
 
